@@ -4,7 +4,12 @@
    in exact real arithmetic (floating-point rounding is not modelled). *)
 From Coq Require Import Reals.
 From Coquelicot Require Import Coquelicot.
+From Coq Require Import List.
+(* Gen.EventLoopR first: Model.EventLoop (the rational loop) defines the same names and must shadow it here; the
+   real-valued loop is only used through lif_simulate and Rle_bool *)
+From NIR Require Import Gen.EventLoopR Proofs.EventLoopRProofs Proofs.LifLoopProofs.
 From NIR Require Import Gen.LifFormulas Proofs.LifProofs Model.EventLoop Proofs.EventLoopProofs.
+Import ListNotations.
 Open Scope R_scope.
 
 (* advancing by zero time is the identity *)
@@ -109,8 +114,43 @@ Theorem c20_laws_hold_for_if_neuron :
   (forall v i t, if_next v i = Some t -> (0 <= t)%Q).
 Proof. split; [exact if_L0|split; [exact if_L1|exact if_L2]]. Qed.
 
-(* (the translated LIF formulas live over R, the loop model over Q: the instantiation of the generic theorem with the
-   real-valued LIF neuron is not carried out — the laws it needs are c20_zero, c20_semigroup and c20_spike_time above) *)
+(* THE LIF NEURON ITSELF.  Gen/EventLoopR.v is the mechanical port of the loop model to the reals (regenerated from
+   Model/EventLoop.v on every run: Q -> R, nothing else changes); instantiated with the closed forms TRANSLATED FROM THE
+   PYTHON SOURCE (Gen/LifFormulas.v) it is the exact LIF simulator in real arithmetic.  For every parameter set, initial
+   voltage, sorted non-negative step-current schedule, duration and pair of positive recording intervals: the spike times
+   within the duration are equal and a voltage recorded at a common time is the same number. *)
+Theorem c20_lif_spikes_independent_of_record_dt :
+  forall tau r v_leak thr, 0 < tau -> forall v0 times amps,
+    (forall a, nth_error times 0 = Some a -> 0 <= a) ->
+    (forall i a b, nth_error times i = Some a -> nth_error times (S i) = Some b -> a <= b) ->
+    forall fuel1 fuel2 r1 r2 d volts1 spikes1 volts2 spikes2,
+    0 < r1 -> 0 < r2 ->
+    lif_simulate tau r v_leak thr fuel1 v0 times amps r1 d = Some (volts1, spikes1) ->
+    lif_simulate tau r v_leak thr fuel2 v0 times amps r2 d = Some (volts2, spikes2) ->
+    filter (fun t => Rle_bool t d) spikes1 = filter (fun t => Rle_bool t d) spikes2.
+Proof. exact lif_spikes_independent_of_record_dt. Qed.
+
+Theorem c20_lif_voltages_independent_of_record_dt :
+  forall tau r v_leak thr, 0 < tau -> forall v0 times amps,
+    (forall a, nth_error times 0 = Some a -> 0 <= a) ->
+    (forall i a b, nth_error times i = Some a -> nth_error times (S i) = Some b -> a <= b) ->
+    forall fuel1 fuel2 r1 r2 d volts1 spikes1 volts2 spikes2 tau1 x1 tau2 x2,
+    0 < r1 -> 0 < r2 ->
+    lif_simulate tau r v_leak thr fuel1 v0 times amps r1 d = Some (volts1, spikes1) ->
+    lif_simulate tau r v_leak thr fuel2 v0 times amps r2 d = Some (volts2, spikes2) ->
+    In (tau1, x1) volts1 -> In (tau2, x2) volts2 -> tau1 = tau2 -> x1 = x2.
+Proof. exact lif_voltages_independent_of_record_dt. Qed.
+
+(* non-vacuity over R (exp / ln do not compute, so the run is unfolded symbolically): a neuron driven above threshold
+   spikes at the predicted time t > 0, the run with any recording interval above t is defined and its spike list within
+   the duration t is [t] *)
+Theorem c20_lif_run_defined : forall tau r vl thr v0 a rd,
+  0 < tau -> 0 < thr -> v0 < thr -> thr < vl + r * a ->
+  exists t, lif_next tau r vl thr v0 a = Some t /\ 0 < t /\
+    (0 + t < rd -> exists volts spikes,
+       lif_simulate tau r vl thr 4 v0 [0] [a] rd (0 + t) = Some (volts, spikes) /\
+       filter (fun x => Rle_bool x (0 + t)) spikes = [0 + t]).
+Proof. exact lif_run_spike_within. Qed.
 
 (* the numpy CubaLIF reference model performs exactly the forward-Euler update of
      tau_syn dI/dt = -I + w_in S ,  tau_mem dv/dt = (v_leak - v) + R I
@@ -139,3 +179,5 @@ Print Assumptions c20_cuba_euler.
 Print Assumptions c20_spikes_independent_of_record_dt.
 Print Assumptions c20_voltages_independent_of_record_dt.
 Print Assumptions c20_laws_hold_for_if_neuron.
+Print Assumptions c20_lif_spikes_independent_of_record_dt.
+Print Assumptions c20_lif_voltages_independent_of_record_dt.
